@@ -62,7 +62,7 @@ use nix::libc::{c_void, uintptr_t};
 use nix::sys;
 use nix::sys::signal;
 use nix::sys::signal::{SIGKILL, Signal};
-use nix::sys::wait::{WaitStatus, waitpid};
+use nix::sys::wait::waitpid;
 use nix::unistd::Pid;
 use object::Object;
 use os_pipe::PipeWriter;
@@ -1288,24 +1288,23 @@ impl Drop for Debugger {
                     .into_iter()
                     .filter(|&tid| waitpid(tid, None).is_ok())
                     .collect();
-                // detach ptrace
+                // detach ptrace; the debugee may have been killed from outside in the meantime
+                // (then there is nothing left to detach from), which must not turn quitting
+                // the debugger into a panic
                 stopped.into_iter().for_each(|tid| {
-                    sys::ptrace::detach(tid, None).expect("detach tracee");
+                    _ = sys::ptrace::detach(tid, None);
                 });
                 // kill debugee process
-                signal::kill(self.debugee.tracee_ctl().proc_pid(), Signal::SIGKILL)
-                    .expect("kill debugee");
-                let wait_result = loop {
-                    let wait_result = waitpid(Pid::from_raw(-1), None).expect("waiting debugee");
-                    if wait_result.pid() == Some(self.debugee.tracee_ctl().proc_pid()) {
-                        break wait_result;
+                let proc_pid = self.debugee.tracee_ctl().proc_pid();
+                _ = signal::kill(proc_pid, Signal::SIGKILL);
+                loop {
+                    match waitpid(Pid::from_raw(-1), None) {
+                        Ok(wait_result) if wait_result.pid() == Some(proc_pid) => break,
+                        Ok(_) => continue,
+                        // no children left: the process has been reaped already
+                        Err(_) => break,
                     }
-                };
-
-                debug_assert!(matches!(
-                    wait_result,
-                    WaitStatus::Signaled(_, Signal::SIGKILL, _)
-                ));
+                }
             }
             ExecutionStatus::Exited => {}
         }
